@@ -50,7 +50,7 @@ pub fn describe_config(c: &FmtFloatConfig) -> String {
 /// given (copied from there; `number.rs` builds it inline).
 pub fn default_dtoa_config(significant_digits: usize) -> FmtFloatConfig {
     FmtFloatConfig::default()
-        .max_significant_digits(significant_digits as u8)
+        .max_significant_digits(significant_digits.clamp(1, u8::MAX as usize) as u8)
         .add_point_zero(false)
         .lower_e_break(-6)
         .upper_e_break(6)
